@@ -52,6 +52,13 @@ def scenarios(tier, seed=0):
     for name, gw, dz in (("Maize", "2.27", "d12"), ("Maize", "2.15", "thickbottom"), ("Wheat", "1.47", "d12"), ("Cotton", "2.15", "thickbottom"), ("Maize", "1.5", "thickbottom")):
         spec = A.catalogue_spec(name, soil="SandyLoam", gw=gw, dz=dz, word="warm", irr="smt")
         yield {"kind": "spec", "spec": spec, "label": ["table-near-zmax", name, gw, dz]}
+    # full-year crops harvested on the planting date: consecutive seasons WITHOUT a fallow day in between, off-season simulated or not,
+    # kept alive by irrigation (first season in a non-leap year / across 29 February)
+    for name in ("SugarCane", "Cassava"):
+        for off, start, end in ((True, "2001/05/01", "2003/05/10"), (False, "2001/05/01", "2003/05/10"), (True, "2003/05/01", "2005/05/10")):
+            spec = A.catalogue_spec(name, soil="ClayLoam", word="warm", irr="smt", off=off, start=start, end=end)
+            spec["crop"]["harvest"] = "05/01"
+            yield {"kind": "spec", "spec": spec, "label": ["full-year-back-to-back", name, off, start]}
     # off-season rows (simulated fallow after harvest and before planting)
     for name in sub:
         spec = A.catalogue_spec(name, soil="SandyLoam", word="warm", off=True, start="2001/04/20", end="2001/12/30")
